@@ -388,8 +388,9 @@ class Check:
             self.samples.append(case_repr[:300])
 
     def replay_file(self, name, payload):
-        os.makedirs(REPLAYS, exist_ok=True)
-        path = os.path.join(REPLAYS, f"{self.pid}-{name}.json")
+        rdir = REPLAYS if repo_tag() == "repo" else os.path.join(BUILD, "replays-" + repo_tag())
+        os.makedirs(rdir, exist_ok=True)
+        path = os.path.join(rdir, f"{self.pid}-{name}.json")
         payload = dict(payload)
         payload.setdefault("property", self.pid)
         payload.setdefault("seed", self.seed)
@@ -433,8 +434,11 @@ class Check:
             "coverage": cov, "assumptions": self.assumptions, "wall_s": round(wall, 2),
             "violations": len(self.violations),
         }
-        os.makedirs(EVIDENCE, exist_ok=True)
-        with open(os.path.join(EVIDENCE, f"{self.pid}.json"), "w") as f:
+        # evidence/ describes runs against /repo only; runs against another checkout
+        # (KOTO_REPO=..., mutation testing) write theirs under build/
+        evdir = EVIDENCE if repo_tag() == "repo" else os.path.join(BUILD, "evidence-" + repo_tag())
+        os.makedirs(evdir, exist_ok=True)
+        with open(os.path.join(evdir, f"{self.pid}.json"), "w") as f:
             json.dump(ev, f, indent=1, ensure_ascii=False)
         for k in self.known_seen:
             print(f"KNOWN-FINDING: property={self.pid} {k}")
